@@ -272,20 +272,6 @@ end Rj
 namespace Rj
 open FS
 
-/-- how the source doer's entry reaches the destination doer -/
-def sentryOf : Node → Option SEntry
-  | .file b (.at m) => some (.file b m)
-  | .folder => some .folder
-  | .symlink text => some (.link (readLinkB text))
-  | _ => none
-
-/-- the source as the boss sees it: what lies at a relative path below the source root -/
-def srcOfFS (S : FS) (rs : FPath) (p : FPath) : Option SEntry := (S.get (rs ++ p)).bind sentryOf
-
-/-- the source listing: the model's own listing of the source root, paths made relative -/
-def lsOfFS (S : FS) (rs : FPath) (f : Nat) : List (FPath × SEntry) :=
-  (listNodes S f rs).filterMap fun e => (sentryOf e.2).map fun s => (e.1.drop rs.length, s)
-
 /-- what is assumed of a source tree: below its root only files with a time stamp, folders and links
 whose text can be written on the destination; tree-closed; fuel for its depth -/
 structure SrcTreeOk (S : FS) (rs : FPath) (f : Nat) : Prop where
